@@ -127,6 +127,9 @@ def _code_and_arg(isa, conf, op, addr, instr_size, zones, sizing=False):
         icode, _, iarg = _code_and_arg(isa, iconf, op['index'], addr, instr_size, zones, sizing)
         mv, ms = conf['bytecode']['value'], conf['bytecode']['size']
         if icode is not None:
+            # the index code is a field of its own width inside the composite code
+            if not sizing and not fits(icode[0], icode[1]):
+                raise Reject(f'value {icode[0]} does not fit the {icode[1]}-bit index code field')
             code = ((mv << icode[1]) | (icode[0] & ((1 << icode[1]) - 1)), ms + icode[1], False, 'big', 'code')
         else:
             code = (mv, ms, False, 'big', 'code')
